@@ -34,7 +34,17 @@ br_ssl_server_zero(br_ssl_server_context *cc)
 	 * architectures, a direct memset() will work, be faster, and
 	 * use a lot less code.
 	 */
+#ifdef BR_VERIF
+	BR_VERIF_GUARD(cc->eng.verif_guard_pad0, 0);
+	BR_VERIF_GUARD(cc->eng.verif_guard_pad1, 0);
+	BR_VERIF_GUARD(cc->verif_guard_ecdhe_key, 0);
+#endif
 	memset(cc, 0, sizeof *cc);
+#ifdef BR_VERIF
+	BR_VERIF_GUARD(cc->eng.verif_guard_pad0, 1);
+	BR_VERIF_GUARD(cc->eng.verif_guard_pad1, 1);
+	BR_VERIF_GUARD(cc->verif_guard_ecdhe_key, 1);
+#endif
 }
 
 /* see bearssl_ssl.h */
